@@ -573,7 +573,7 @@ func (r *runner) finalize() {
 			return s != "Running" && s != "Recovering"
 		}, 5*time.Second)
 		if !ok {
-			r.log.Add("Hang", "call", "run-end", "status", r.pipelineStatus())
+			r.log.Add("Hang", "call", "run-end", "status", r.pipelineStatus(), "goroutines", goroutineDump())
 		}
 	}
 	if r.eng.V1 != nil {
@@ -612,7 +612,7 @@ func (r *runner) endEvent() {
 }
 
 func goroutineDump() string {
-	buf := make([]byte, 1<<16)
+	buf := make([]byte, 1<<20)
 	n := runtime.Stack(buf, true)
 	return string(buf[:n])
 }
